@@ -73,6 +73,9 @@ pub fn docs_core() -> Vec<Value> {
         json!([" ", "\t", "\n", ""]),
         json!({"b": 1, "a": 2, "B": 3, "_": 4, "é": 5, "aa": 6, "": 7, "a b": 8}),
         json!([{"a": [null, 1]}, {"b": 2}, {"a": null}, {"a": [[2], null]}]),
+        // floats one ulp apart: ordering operators are exact
+        json!({"a": 0.30000000000000004, "b": 0.3}),
+        json!([0.3, 0.30000000000000004, 1.0000000000000002, 1.0]),
     ]
 }
 
